@@ -51,13 +51,13 @@ func ZSetUniverse() *Universe {
 	u := &Universe{Name: "zset", ZSet: []string{"t:z"}, Fields: []string{"a", "b", ""}}
 	k := "t:z"
 	u.Cmds = append(u.Cmds,
-		[]string{"zadd", k, "1", "a"}, []string{"zadd", k, "2", "a"}, []string{"zadd", k, "1", "b"}, []string{"zadd", k, "-1", "b"}, []string{"zadd", k, "0", ""},
+		[]string{"zadd", k, "1", "a"}, []string{"zadd", k, "2", "a"}, []string{"zadd", k, "1", "b"}, []string{"zadd", k, "-1", "b"}, []string{"zadd", k, "0", ""}, []string{"zadd", k, "1", ""},
 		[]string{"zadd", k, "1", "a", "2", "a"}, []string{"zadd", k, "1", "a", "1", "b"}, []string{"zadd", k, "1.5", "a"},
-		[]string{"zincrby", k, "1", "a"}, []string{"zincrby", k, "-1", "b"},
+		[]string{"zincrby", k, "1", "a"}, []string{"zincrby", k, "-1", "b"}, []string{"zincrby", k, "0", "a"},
 		[]string{"zrem", k, "a"}, []string{"zrem", k, "a", "b"}, []string{"zrem", k, "a", "a"}, []string{"zrem", k, ""},
 		[]string{"zremrangebyrank", k, "0", "0"}, []string{"zremrangebyrank", k, "-1", "-1"}, []string{"zremrangebyrank", k, "1", "0"},
 		[]string{"zremrangebyscore", k, "1", "1"}, []string{"zremrangebyscore", k, "(1", "2"}, []string{"zremrangebyscore", k, "-inf", "+inf"},
-		[]string{"zremrangebylex", k, "[a", "[a"}, []string{"zremrangebylex", k, "(a", "+"}, []string{"zremrangebylex", k, "-", "+"},
+		[]string{"zremrangebylex", k, "[a", "[a"}, []string{"zremrangebylex", k, "(a", "+"}, []string{"zremrangebylex", k, "-", "+"}, []string{"zremrangebylex", k, "-", "["}, []string{"zremrangebylex", k, "-", "("}, []string{"zremrangebylex", k, "(", "+"}, []string{"zremrangebylex", k, "[", "(b"},
 		[]string{"zclear", k})
 	return u
 }
